@@ -87,6 +87,8 @@ def run(ctx):
     # decision table of the application (evaltables.py): one fresh frame per application, child of the captured environment;
     # parameters, rest list, internal definitions and body all use it
     d_app = evaltables.rule_application(ctx, "C01-scope-extend", {"frame", "bind"})
+    # ... also when the application is the next turn of a self tail call: a closure made in the finished turn keeps its own bindings
+    evaltables.rule_trampoline(ctx, "C01-scope-extend", {"frame"})
     def _old_extend():
         # where the body frame comes from (position-independent: created in apply_scheme_procedure or handed in by the trampoline)
         from . import frames
